@@ -69,6 +69,10 @@ def plan(tier, seed):
         for p in range(8):
             shards.append({"name": "notes-%d" % p, "kind": "notes", "n": 6000,
                            "part": p})
+    from . import w7
+    shards += w7.plan(tier, modules=["test_util.py", "test_beat.py", "test_onset.py",
+                                     "test_transcription.py", "test_multipitch.py",
+                                     "test_transcription_velocity.py"])
     return shards
 
 
@@ -374,7 +378,11 @@ def run_shard(spec, ctx):
         c.watch(shim._SHIMS[("mir_eval.util", "_bipartite_match")].orig)
         c.watch(mods["util"]._fast_hit_windows)
         c.start()
-    WL[spec["kind"]](spec, ctx, mods)
+    if spec["kind"] == "w7":
+        from . import w7
+        w7.run(spec, ctx)
+    else:
+        WL[spec["kind"]](spec, ctx, mods)
     if c is not None:
         c.stop()
         rep = c.report(DECIDING)
